@@ -89,8 +89,9 @@ Qed.
 (* a consumer joining while the group knows no video codec is not made to wait *)
 Theorem join_wait_rule s k id :
   c_wait (new_consumer s k id) =
-  match k with KRtmp | KFlv => g_video_known s | KPush => false | KTs => true end /\
-  c_fresh (new_consumer s k id) = true /\ c_out (new_consumer s k id) = [].
+  match k with KRtmp | KFlv => g_video_known s | KPush => false | KTs | KRtsp => true end /\
+  c_fresh (new_consumer s k id) = true /\
+  c_out (new_consumer s k id) = match k with KRtsp => opt_list (g_sdp s) | _ => [] end.
 Proof. destruct k; repeat split. Qed.
 
 (* the end of the input wipes caches, PAT/PMT and codec information *)
@@ -98,11 +99,12 @@ Theorem in_stop_clears cf s : g_in s = true ->
   let s' := step cf s EvInStop in
   g_video_known s' = false /\ g_patpmt s' = None /\
   prologue (g_rtmp_cache s') false = [] /\ prologue (g_rtmp_cache s') true = [] /\
-  prologue (g_flv_cache s') false = [] /\ gc_all (g_ts_cache s') = [] /\ gc_count (g_ts_cache s') = 0%nat.
+  prologue (g_flv_cache s') false = [] /\ gc_all (g_ts_cache s') = [] /\ gc_count (g_ts_cache s') = 0%nat /\
+  g_sdp s' = None.
 Proof.
   intro Hin. cbn [step]. rewrite Hin. cbn [negb].
   destruct (partition _ _) as [pushes stay].
-  cbn [g_video_known g_patpmt g_rtmp_cache g_flv_cache g_ts_cache].
+  cbn [g_video_known g_patpmt g_rtmp_cache g_flv_cache g_ts_cache g_sdp].
   assert (Hc : forall g : gop_cache label, gc_count (gc_clear g) = 0%nat /\ gc_all (gc_clear g) = []).
   { intro g. assert (H0 : gc_count (gc_clear g) = 0%nat).
     { unfold gc_count. cbn [gc_clear gc_last gc_first gc_size]. rewrite Nat.add_0_l, Nat.sub_0_r.
